@@ -231,12 +231,22 @@ def gen (special : Nat) : G (Module × Opts × String) := do
   let chn ← if (← chance 60) then range 1 8 else range 1 32
   let npat ← if (← chance 5) then range 1 100 else range 1 (2 + size)
   let npat := if size = 0 then min npat 3 else npat
+  -- 16-bit pattern parapointers: the pattern area must end below 1 MiB (worst case 6 bytes per cell)
+  let npat := min npat (1040000 / (64 * (6 * chn + 1) + 18))
   let len ← range 1 (min 255 (4 + 10 * size))
   let ords ← listOf len (do
     if (← chance 12) then return (if (← chance 50) then 0xfe else 0xff) else below npat)
   let pos ← below len
   let ords := (ords.take pos ++ [npat - 1] ++ ords.drop (pos + 1)).map u8
   let ords := if S3m.playable ords then ords else u8 (npat - 1) :: ords.drop 1
+  -- sometimes an order entry beyond the stored patterns (plays as an empty position)
+  let beyond ← chance 15
+  let bq ← below len
+  let bv ← range npat 0xfd
+  let ords2 := ords.take bq ++ [u8 bv] ++ ords.drop (bq + 1)
+  let ords := if beyond ∧ npat < 0xfd ∧ ords2.any (fun x => x.toNat < npat) then ords2 else ords
+  -- the scan from order 0 must reach a stored pattern before an end marker
+  let ords := if S3m.startsValid npat ords then ords else u8 (npat - 1) :: ords.drop 1
   let nz ← range 3 95
   let emptyPat ← below (npat + 3)
   let pats ← (List.range npat).mapM fun k => do
@@ -302,7 +312,21 @@ def genSmp (maxLen : Nat) : G Smp := do
   let pcm := if ((storePcm flg len pcm).drop 4).take 4 = str "OggS" then pcm.map (fun _ => 0) else pcm
   return { name := name, len := len, lps := lps, lpe := lpe, flg := flg, pcm := pcm }
 
-def genIns (sid maxLen : Nat) : G (Ins × List Smp) := do
+/-- header size for an instrument with samples: the FT2 size 263, other full sizes (≥ 241: 241, 243, … with
+`size - 241` skipped bytes), or a stripped header (33..240, no key map) -/
+def genInsSize : G Nat := do
+  match (← below 20) with
+  | 0 | 1 | 2 | 3 | 4 | 5 | 6 | 7 | 8 | 9 => pure 263
+  | 10 => pure 241
+  | 11 => pure 243
+  | 12 | 13 => range 241 263
+  | 14 | 15 => range 264 420
+  | 16 => pure 339                        -- size field starts with 'S' (0x53)
+  | 17 => pure 33
+  | _ => range 33 240
+
+/-- `size` = the header size this instrument gets if it has samples (a stripped header has no key map) -/
+def genIns (sid maxLen size : Nat) : G (Ins × List Smp) := do
   let name ← genName 22
   if (← chance 30) then return ({ name := name, subs := [] }, [])
   let nsm ← if (← chance 60) then pure 1 else if (← chance 90) then range 2 4 else range 5 16
@@ -314,7 +338,33 @@ def genIns (sid maxLen : Nat) : G (Ins × List Smp) := do
     let fin ← range 0 255
     return ({ sid := sid + j, vol := vol, pan := pan, xpo := (xpo : Int) - 128, fin := (fin : Int) - 128 } : Sub)
   let km ← listOf 96 (below nsm)
+  let km := if size < 241 then km.map (fun _ => 0) else km
   return ({ name := name, subs := subs, keymap := List.replicate 12 0 ++ km ++ List.replicate 13 0 }, smps)
+
+/-- Instruments whose file image has "OggS" at offset 4 of a short sample body (4..7 stored bytes) although no sample
+holds it in its own bytes: the tag straddles into the next sample body (variants 0..3: the short sample ends with the
+first `k` letters, the next one starts with the rest) or into the size field of the next instrument header
+(variant 4: "Ogg" + size 339 = 53 01 00 00; variant 5: "Og" + size 0x5367).  `is_ogg_sample` must not take these
+for OXM Vorbis samples.  Returns instruments with their header sizes, and the samples. -/
+def genOggTrap (sid : Nat) : G (List (Ins × Nat) × List Smp × Nat) := do
+  let variant ← below 6
+  let rnd ← genBytes 4
+  let tailRnd ← genBytes (← below 3)
+  let ogg : Bytes := str "OggS"
+  let mk8 (name : String) (stored : Bytes) : Smp :=
+    { name := str name, len := stored.length, lps := 0, lpe := 0, flg := 0, pcm := deltaDec false stored }
+  let sub (k : Nat) : Sub := { sid := sid + k, vol := 64, pan := 128, xpo := 0, fin := 0 }
+  let km := List.replicate 121 0
+  if variant < 4 then
+    let a := mk8 "short" (rnd ++ ogg.take variant)
+    let b := mk8 "next" (ogg.drop variant ++ tailRnd)
+    return ([({ name := str "OGGTRAP", subs := [sub 0, sub 1], keymap := km }, 263)], [a, b], variant)
+  else
+    let k := if variant = 4 then 3 else 2
+    let a := mk8 "last" (rnd ++ ogg.take k)
+    let b := mk8 "after" ((1 : UInt8) :: tailRnd)
+    return ([({ name := str "OGGTRAP", subs := [sub 0], keymap := km }, 263),
+             ({ name := str "OGGNEXT", subs := [sub 1], keymap := km }, if variant = 4 then 339 else 0x5367)], [a, b], variant)
 
 def gen (witness : Nat) : G (Module × Opts × String) := do
   let size := baseSize witness
@@ -338,16 +388,29 @@ def gen (witness : Nat) : G (Module × Opts × String) := do
   let maxLen := if size = 0 then 40 else if size = 1 then 400 else 3000
   let mut ins : Array Ins := #[]
   let mut smps : Array Smp := #[]
+  let mut sizes : Array Nat := #[]
   let bigSeed ← below 1000
   if witness = 5 ∨ witness = 6 then
     -- big files: a long first sample pushes every later sample beyond 64 KiB / 1 MiB
     let (flg, len) : Nat × Nat := if witness = 5 then (0, 70000) else if bigSeed % 2 = 0 then (0, 1048576) else (F16BIT, 540000)
     ins := ins.push { name := str "BIG", subs := [{ sid := 0, vol := 64, pan := 128, xpo := 0, fin := 0 }], keymap := List.replicate 121 0 }
     smps := smps.push { name := str "big", len := len, lps := 0, lpe := 0, flg := flg, pcm := bigPcm bigSeed (len * frameBytes flg) }
+    sizes := sizes.push (if bigSeed % 3 = 0 then 263 else 241 + bigSeed % 100)
   for _ in [0:nins] do
-    let (x, ms) ← genIns smps.size maxLen
+    let size ← genInsSize
+    let (x, ms) ← genIns smps.size maxLen size
     ins := ins.push x
+    sizes := sizes.push size
     smps := smps ++ ms.toArray
+  -- the formerly excluded region: "OggS" straddling a short sample and what follows it
+  let mut trap := "-"
+  if witness < 3 ∧ (← chance 18) then
+    let (xs, ms, v) ← genOggTrap smps.size
+    for (x, size) in xs do
+      ins := ins.push x
+      sizes := sizes.push size
+    smps := smps ++ ms.toArray
+    trap := toString v
   let name ← genName 20
   let spd ← range 1 31
   let bpm ← if (← chance 85) then range 32 255 else range 256 1000
@@ -357,7 +420,9 @@ def gen (witness : Nat) : G (Module × Opts × String) := do
   let oseed ← next
   let modeKind ← below 4
   let emptyZero ← chance 50
-  let eis ← match (← below 3) with | 0 => pure 29 | 1 => pure 33 | _ => pure 263
+  let eis ← match (← below 5) with | 0 => pure 29 | 1 => pure 33 | 2 => pure 263 | 3 => range 30 40 | _ => range 29 300
+  -- song header size: the order table stored is `hsz - 20` bytes, at least the song length
+  let hsz ← match (← below 5) with | 0 | 1 => pure 276 | 2 => pure (20 + len) | 3 => pure (max (20 + len) 275) | _ => range (20 + len) 276
   -- regression witnesses of two repaired end-of-file defects of the loader (size classes 7 and 8):
   -- a final sample-less instrument with the plain 29-byte header and a name; a final sample of 5 bytes
   if witness = 7 then
@@ -379,13 +444,17 @@ def gen (witness : Nat) : G (Module × Opts × String) := do
   let trk := if trk.take 6 = str "MED2XM" ∨ trk.isEmpty then str "x" else trk
   let m : Module := { name := name, chn := chn, orders := ords, pats := pats, ins := ins.toList,
                       smps := smps.toList, spd := spd, bpm := bpm }
-  let o : Opts := { tracker := trk, restart := (← below 300), flags := (← below 2), emptyZero := emptyZero, emptyInsSize := eis,
+  -- instruments appended above (witnesses) get full-size headers with a few skipped bytes
+  let sizeList := sizes.toList
+  let insSize : Nat → Nat := fun i => if i < sizeList.length then sizeList.getD i 263 else 263 + i % 7
+  let o : Opts := { hsz := hsz, insSize := insSize, tracker := trk, restart := (← below 300), flags := (← below 2), emptyZero := emptyZero, emptyInsSize := eis,
                     fx := fun i => let (a, b) := hashFx xseed i; (u8 (a.toNat % 40), b),
                     volfx := fun i => if hashNat vseed i % 3 = 0 then 0 else u8 (hashNat vseed (i + 1)),
                     mode := fun i => match modeKind with
                       | 0 => 0 | 1 => 32 | 2 => hashNat mseed i % 33 | _ => 31,
                     filler := fun i => u8 (hashNat oseed i) }
-  return (m, o, s!"special={witness} chn={chn} pat={npat} len={len} ins={nins} smp={smps.size} mode={modeKind} emptyZero={emptyZero} emptyIns={eis}")
+  let usedSizes := (m.ins.zipIdx.filter fun (x, _) => !x.subs.isEmpty).map fun (_, i) => insSize i
+  return (m, o, s!"special={witness} chn={chn} pat={npat} len={len} ins={nins} smp={smps.size} mode={modeKind} emptyZero={emptyZero} emptyIns={eis} hsz={hsz} insSizes={",".intercalate (usedSizes.map toString)} oggtrap={trap}")
 
 end GenXm
 
@@ -435,6 +504,26 @@ def bigSlots (special seed : Nat) (slots : List (Ins × Smp)) : List (Ins × Smp
     ({ name := x.name, subs := [{ sid := j, vol := 33 + j, pan := (4 * j : Nat), xpo := 0, fin := 0 }] },
      { name := [], len := len, lps := 0, lpe := 0, flg := flg, pcm := bigPcm (seed + j) (len * frameBytes flg) })
 
+/-- instrument-mode instrument: key table generated in the order the loader numbers the sub-instruments
+(a key is off, reuses one of the `t` sub-instruments met so far, or introduces the next one with a fresh sample) -/
+def genKeys (nsmp : Nat) (offRate maxSubs : Nat) : G (List Nat × List (Option Nat)) := do
+  let mut sids : Array Nat := #[]
+  let mut keys : Array (Option Nat) := #[]
+  let lim := min (min nsmp 120) maxSubs
+  for _ in [0:120] do
+    if (← chance offRate) ∨ lim = 0 then
+      keys := keys.push none
+    else
+      let t := sids.size
+      let idx ← if t < lim then below (t + 1) else below t
+      if idx = t then
+        -- fresh sample id
+        let free := (List.range (min nsmp 120)).filter fun c => !(sids.toList.contains c)
+        let c := free.getD (← below free.length) 0
+        sids := sids.push c
+      keys := keys.push (some idx)
+  return (sids.toList, keys.toList)
+
 def gen (special : Nat) : G (Module × Opts × String) := do
   let size := baseSize special
   let chn ← if (← chance 60) then range 1 8 else range 1 64
@@ -446,6 +535,13 @@ def gen (special : Nat) : G (Module × Opts × String) := do
   let ords := ords.map u8
   let first ← below npat
   let ords := if S3m.playable ords then ords else u8 first :: ords.drop 1
+  -- sometimes an order entry beyond the stored patterns (plays as an empty position)
+  let beyond ← chance 15
+  let bq ← below len
+  let bv ← range npat 0xfd
+  let ords2 := ords.take bq ++ [u8 bv] ++ ords.drop (bq + 1)
+  let ords := if beyond ∧ ords2.any (fun x => x.toNat < npat) then ords2 else ords
+  let ords := if S3m.startsValid npat ords then ords else u8 first :: ords.drop 1
   let nz ← range 3 95
   let palette ← listOf 4 (genCell 100 [])
   let emptyPat ← below (npat + 3)
@@ -475,9 +571,45 @@ def gen (special : Nat) : G (Module × Opts × String) := do
   let lastMode ← below 3
   let fxOn ← chance 70
   let nullEmpty ← chance 50
-  let m : Module := { name := name, chn := chn, orders := ords, pats := pats, ins := slots.map (·.1),
-                      smps := slots.map (·.2), spd := spd, bpm := bpm }
-  let o : Opts := { cwt := (if (← chance 50) then 0x0214 else 0x0888), cmwt := (if (← chance 50) then 0x0214 else 0x0200),
+  -- instrument mode: 0 = sample mode, 1 = new instrument headers, 2 = old instrument headers
+  let imode ← if isSpecial then pure 0 else match (← below 5) with | 0 | 1 => pure 1 | 2 => pure 2 | _ => pure 0
+  let isNew := imode = 1
+  let iseed ← next
+  let smpVol : Nat → Nat := fun i => hashNat iseed (i + 300) % 65
+  let smpPan : Nat → Option Nat := fun i => if hashNat iseed (i + 600) % 3 = 0 then some (hashNat iseed (i + 700) % 65) else none
+  let insPan : Nat → Option Nat := fun i => if hashNat iseed (i + 800) % 2 = 0 then some (hashNat iseed (i + 900) % 65) else none
+  let nins ← range 0 (3 + 2 * size)
+  let mut inss : Array Ins := #[]
+  let mut offTab : Array (List Bool) := #[]
+  for i in [0:(if imode = 0 then 0 else nins)] do
+    let iname ← genName 25
+    let offRate ← match (← below 6) with | 0 => pure 0 | 1 => pure 100 | 2 => pure 60 | _ => pure 15
+    let maxSubs ← if (← chance 50) then range 1 3 else range 1 12
+    let (sids, keys) ← genKeys nsmp offRate maxSubs
+    let noSmp := if isNew then 0xff else 0
+    let o0 : Opts := { smpPan := smpPan, insPan := insPan }
+    inss := inss.push { name := iname,
+                        subs := sids.map fun sid => { sid := sid, vol := smpVol sid, pan := subPan o0 isNew i sid, xpo := 0, fin := 0 },
+                        keymap := keys.map (fun k => k.getD noSmp) ++ [0] }
+    offTab := offTab.push (keys.map fun k => k.isNone)
+  let snames ← (List.range nsmp).mapM fun _ => genName 25
+  let m : Module :=
+    if imode = 0 then { name := name, chn := chn, orders := ords, pats := pats, ins := slots.map (·.1),
+                        smps := slots.map (·.2), spd := spd, bpm := bpm }
+    else { name := name, chn := chn, orders := ords, pats := pats, ins := inss.toList,
+           smps := (slots.map (·.2)).zipIdx.map (fun (m, i) => { m with name := snames.getD i [] }), spd := spd, bpm := bpm }
+  let cmA ← chance 50
+  let cmwtSel : Nat := if imode = 2 then (if cmA then 0x0100 else 0x01ff) else if cmA then 0x0214 else 0x0200
+  let histSel ← below 4
+  let hist : Option Nat := if isSpecial then none else match histSel with | 0 => some 0 | 1 => some (hashNat iseed 77 % 40) | _ => none
+  let midiSel ← if isSpecial then pure 0 else if (← chance 25) then range 1 3 else pure 0
+  let o : Opts := { insMode := imode ≠ 0, smpVol := smpVol, smpPan := smpPan, insPan := insPan, history := hist, midi := midiSel,
+                    keyOff := fun i j => ((offTab.toList.getD i []).getD j false),
+                    keyNote := fun i j => u8 (hashNat iseed (i * 131 + j + 2000)),
+                    envNodes := fun i => hashNat iseed (i + 3000) % 25,
+                    filler := fun k => u8 (hashNat iseed (k + 5000)),
+                    cwt := (if (← chance 50) then 0x0214 else 0x0888),
+                    cmwt := cmwtSel,
                     flags := (← below 256), gv := u8 (← range 0 128), mv := u8 (← below 129),
                     signed := fun i => hashNat sseed i % 2 = 0,
                     comp := fun i =>
@@ -500,7 +632,7 @@ def gen (special : Nat) : G (Module × Opts × String) := do
                         fade := hashNat cseed (i + 77) },
                     chpan := fun k => u8 (hashNat cseed (k + 9000) % 65),
                     chvol := fun k => u8 (hashNat cseed (k + 9100) % 65) }
-  return (m, o, s!"special={special} comp={compRate} wmode={wmode} chn={chn} pat={npat} len={len} smp={nsmp} last={lastMode} fx={fxOn} nullEmpty={nullEmpty}")
+  return (m, o, s!"special={special} comp={compRate} wmode={wmode} chn={chn} pat={npat} len={len} smp={nsmp} last={lastMode} fx={fxOn} nullEmpty={nullEmpty} imode={imode} ins={m.ins.length} hist={hist} midi={midiSel}")
 
 end GenIt
 
